@@ -8,6 +8,15 @@ import (
 	"strings"
 )
 
+// charCode is the token code of a character literal: the code of its character
+// (not of the first byte of its UTF-8 encoding).
+func charCode(lit string) int {
+	for _, r := range lit {
+		return int(r)
+	}
+	return 0
+}
+
 func genTempName(in string) string {
 	return "$operator" + in
 }
